@@ -508,7 +508,7 @@ func (p *lowMemoryEventPool) wakeupWaiters() {
 		verifhook.Point("pool.low.tick")
 		waiters := p.slowWaiters.Load()
 		eventsAvailable := p.eventsAvailable()
-		if waiters > 0 && !eventsAvailable {
+		if waiters > 0 && eventsAvailable {
 			// There are events in the pool, wake up waiting goroutines.
 			p.getCond.Broadcast()
 		}
